@@ -40,9 +40,9 @@ class Prout(FunctionPattern):
             else:
                 iterator = self.func()
             try:
-                yield next(iterator)
+                inval = yield next(iterator)
                 while True:
-                    yield iterator.send(inval)
+                    inval = yield iterator.send(inval)
             except StopIteration as e:
                 return e.value  # Contains generator function's return value.
         else:
